@@ -1483,15 +1483,18 @@ func (dht *FullRT) findProvidersAsyncRoutine(ctx context.Context, key multihash.
 			logger.Debugf("got provider: %s", prov)
 			if psTryAdd(prov.ID) {
 				logger.Debugf("using provider: %s", prov)
+				// Wait on the search's context, not on the per-request one: execOnMany
+				// cancels the latter as soon as enough peers have answered, and the
+				// providers of an answer that was already received must not be dropped.
 				select {
 				case peerOut <- *prov:
 					span.AddEvent("found provider", trace.WithAttributes(
 						attribute.Stringer("peer", prov.ID),
 						attribute.Stringer("from", p),
 					))
-				case <-ctx.Done():
+				case <-queryctx.Done():
 					logger.Debug("context timed out sending more providers")
-					return ctx.Err()
+					return queryctx.Err()
 				}
 			}
 			if !findAll && psSize() >= count {
